@@ -1,5 +1,7 @@
 import Yaep.Driver.Case
 import Yaep.Model.Earley
+import Yaep.Model.Chart
+import Yaep.Model.Recovery
 /-!
 # The judge: compares the observations of the real library with the model
 
@@ -130,7 +132,7 @@ def judgeParse (cfg : ParseCfg) (cid : String) (o : Op) (hs : HState) (out : Out
   let ak := o.args.getD 0 "user"
   let fk := o.args.getD 1 "user"
   let codes := (expandToks (o.args.drop 3)).takeWhile (· ≥ 0)
-  let p := (o.first "parse").getD []
+  let some p := o.first "parse" | return (hs, out.s cid s!"op {o.n} no observation")
   let rc := kvInt p "rc"
   let amb := kvInt p "amb"
   let rootS := (kv p "root").getD "?"
@@ -167,6 +169,12 @@ def judgeParse (cfg : ParseCfg) (cid : String) (o : Op) (hs : HState) (out : Out
   out := out.s cid s!"parse n={n} la={la} one={hs.st.one} cost={hs.st.cost} rec={hs.st.recov} sentence={sentence} modelRan={modelRan} amb={amb}"
   if !modelRan then return (hs', out)
   let recOff := hs.st.recov == 0
+  let rmatch := hs.st.rmatch.toNat
+  -- recovery model (only needed for non-sentences with recovery on)
+  let rr : RecResult := if !sentence && !recOff then parseWithRecovery g mla rmatch w else default
+  let recModelOk := sentence || recOff || rr.ok
+  if !recModelOk then
+    out := out.s cid s!"recovery model gave up steps={rr.steps}"
   -- C01 ----------------------------------------------------------------------------------
   if sentence then
     out := out.v cid o.n "C01" "K" (rootS == "tree" && nse == 0) s!"sentence: root={rootS} nse={nse}"
@@ -174,21 +182,46 @@ def judgeParse (cfg : ParseCfg) (cid : String) (o : Op) (hs : HState) (out : Out
     out := out.v cid o.n "C01" "K" (rootS == "null" && nse == 1) s!"non-sentence, recovery off: root={rootS} nse={nse}"
   else
     out := out.v cid o.n "C01" "K" (nse ≥ 1) s!"non-sentence, recovery on: nse={nse}"
-  -- deep tie: Earley sets position by position (levels 0/1; without recovery events)
-  if la ≤ 1 && (sentence || recOff) then
-    let implSets := (o.get "set").map fun ws => strSet (ws.drop 2)
-    let modelSets := pl.map fun s => strSet (s.map itemStr)
-    if !(o.get "set").isEmpty then
-      out := out.v cid o.n "C01" "D" (implSets == modelSets)
-        (if implSets == modelSets then s!"sets={modelSets.length}" else s!"sets differ model={modelSets} impl={implSets}")
-  -- C06, recovery off ---------------------------------------------------------------------
+    out := out.v cid o.n "C07" "K" (rootS == "tree") s!"recovery on: root={rootS}"
+  -- deep tie: Earley sets position by position (levels 0/1)
+  if la ≤ 1 && recModelOk && !(o.get "set").isEmpty then
+    let implSets := (o.get "set").map fun ws => (ws.getD 1 "-") :: strSet (ws.drop 2)
+    let modelSets :=
+      if sentence || recOff then pl.map fun s => strSet (s.map itemStr)
+      else rr.pl.map fun s => strSet (s.items.map itemStr)
+    let modelTerms :=
+      if sentence || recOff then "-" :: ((w ++ [g.eofT]).take (pl.length - 1)).map (fun a => g.termNames.getD a "?")
+      else rr.pl.map fun s => match s.term with | some a => g.termNames.getD a "?" | none => "-"
+    let modelSets := (modelTerms.zip modelSets).map fun (t, s) => t :: s
+    out := out.v cid o.n (if sentence || recOff then "C01" else "C07") "D" (implSets == modelSets)
+      (if implSets == modelSets then s!"sets={modelSets.length}" else s!"sets differ model={modelSets} impl={implSets}")
+  -- C06 -----------------------------------------------------------------------------------
+  let attrOf := fun (k : Int) => if k ≥ 0 && k < n then k else (-1 : Int)
   if !sentence && recOff then
     let k : Nat := err.getD 0
-    let attr : Int := if k < n then k else -1
-    let exp := [toString k, toString attr, "-1", "-1", "-1", "-1"]
+    let exp := [toString k, toString (attrOf k), "-1", "-1", "-1", "-1"]
     out := out.v cid o.n "C06" "K" (ses == [exp]) s!"se={ses} expected={exp}"
+  if !sentence && !recOff then
+    let calls := ses.map fun ws => (ws.map toInt)
+    -- well-formedness of every call, straight from the property
+    let wfCall := fun (c : List Int) =>
+      let e := c.getD 0 0; let ea := c.getD 1 0; let ig := c.getD 2 0; let ia := c.getD 3 0
+      let rcv := c.getD 4 0; let ra := c.getD 5 0
+      decide (0 ≤ ig) && decide (ig ≤ rcv) && decide (rcv ≤ n) && decide (0 ≤ e) && decide (e ≤ n)
+        && ea == attrOf e && ia == attrOf ig && ra == attrOf rcv
+    out := out.v cid o.n "C06" "K" (calls.all wfCall) s!"callback arguments well-formed: {ses}"
+    let errs := calls.map (·.getD 0 0)
+    let incr := (errs.zip (errs.drop 1)).all fun (a, b) => decide (a < b)
+    out := out.v cid o.n "C06" "K" incr s!"error tokens strictly increase: {errs}"
+    let k : Nat := err.getD 0
+    out := out.v cid o.n "C06" "K" (errs.head? == some (k : Int)) s!"first error token={errs.head?} model={k}"
+    if recModelOk then
+      let exp := rr.calls.map fun (e, a, b) =>
+        [toString e, toString (attrOf e), toString a, toString (attrOf a), toString b, toString (attrOf b)]
+      out := out.v cid o.n "C07" "D" (ses == exp) s!"callbacks={ses} model={exp}"
   -- trees ---------------------------------------------------------------------------------
-  if sentence && rootS == "tree" then
+  let recovered := !sentence && !recOff && recModelOk
+  if (sentence || recovered) && rootS == "tree" then
     let some (rootIdS :: _) := o.first "root" | return (hs', out.v cid o.n "C02" "K" false "no root line")
     let rootId := toNat rootIdS
     let wf := tableWF tab && !hasBad tab && crashy == 0
@@ -198,15 +231,25 @@ def judgeParse (cfg : ParseCfg) (cid : String) (o : Op) (hs : HState) (out : Out
     let nErr := (tab.toList.filter fun r => match r with | .err => true | _ => false).length
     out := out.v cid o.n "C02" "K" (nNil ≤ 1 && nErr ≤ 1) s!"NIL/ERROR in one exemplar nil={nNil} err={nErr}"
     if !wf then return (hs', out)
-    let toks := w ++ [g.eofT]
+    -- the input the tree must be a translation of: the tokens themselves, or (after error
+    -- recovery) the repaired input read off the model's final parse list
+    let toks := if sentence then w ++ [g.eofT] else (rr.pl.drop 1).map fun s => s.term.getD 0
+    let posMap : List Int := if sentence then (List.range (n + 1)).map (fun (k : Nat) => Int.ofNat k)
+      else (rr.pl.drop 1).map fun s => match s.tok with | some k => Int.ofNat k | none => -1
+    let fixAttr := fun (t : Tree) => t.mapAttr fun a => if a ≥ 0 then posMap.getD a.toNat (-7) else a
+    if recovered then
+      -- C07: the replaced segments contain as many tokens as the callbacks reported ignored
+      let kept := ((rr.pl.drop 1).filter fun s => s.tok.isSome).length
+      let reported : Int := (ses.map fun ws => toInt (ws.getD 4 "0") - toInt (ws.getD 2 "0")).foldl (· + ·) 0
+      out := out.v cid o.n "C07" "K" (reported + Int.ofNat kept == Int.ofNat (n + 1)) s!"ignored reported={reported} tokens kept={kept} of {n + 1}"
     if n ≤ cfg.maxTreeToks then
-      let nd := countDerivations g toks cfg.derivCap
+      let nd := countDerivationsP g toks cfg.derivCap
       let implCount := (countTab tab).getD rootId 0
       if nd > cfg.derivCap || implCount > cfg.derivCap then
         out := out.s cid s!"trees skipped derivations>{cfg.derivCap}"
       else
-        let ds := derivations g toks
-        let trees := ds.map (translate g)
+        let ds := derivationsP g toks
+        let trees := ds.map fun d => fixAttr (translate g d)
         let costOn := hs.st.cost != 0
         let oneP := hs.st.one != 0
         let implTrees := (denoteTab tab).getD rootId []
@@ -224,9 +267,9 @@ def judgeParse (cfg : ParseCfg) (cid : String) (o : Op) (hs : HState) (out : Out
           let specStrs := strSet (trees.map Tree.str)
           if oneP then
             let okOne := !hasAlt tab && implStrs.length == 1 && implStrs.all (specStrs.contains ·)
-            out := out.v cid o.n "C02" "K" okOne s!"tree={implStrs} translations={specStrs.length}"
+            out := out.v cid o.n (if recovered then "C07" else "C02") "K" okOne s!"tree={implStrs} translations={specStrs.length} input={toks}"
           else
-            out := out.v cid o.n "C03" "K" (implStrs == specStrs)
+            out := out.v cid o.n (if recovered then "C07" else "C03") "K" (implStrs == specStrs)
               (if implStrs == specStrs then s!"set equal size={specStrs.length}"
                else s!"missing={specStrs.filter (!implStrs.contains ·)} spurious={implStrs.filter (!specStrs.contains ·)}")
         else
